@@ -87,7 +87,7 @@ func FaultLeaf(p *Profile, cfg core.Cfg, ops []core.Op, leaf *Leaf, prop string)
 			}
 		}
 		for _, cut := range cuts {
-			for variant := 0; variant < 3; variant++ {
+			for variant := 0; variant < 4; variant++ {
 				bump(leaf, "faults")
 				f := core.Fault{At: it.idx, Cut: cut}
 				evd := fmt.Sprintf("%s fails", evDesc(it.ev))
